@@ -110,6 +110,18 @@ def _exprs(n_ops, leaves):
                     yield (op, a, b)
 
 
+def _nested(tier):
+    """Nested complements over wider intersections / unions (what De Morgan has to push through)."""
+    a, b, c, d = ('s', 1), ('s', -2), ('s', 3), ('f', -4, 2)
+    for op1 in ('*', ':'):
+        for op2 in ('*', ':'):
+            inner = (op1, (op1, a, b), c)
+            yield ('~', (op2, ('~', inner), d))
+            yield ('~', (op2, d, ('~', inner)))
+            yield (op2, ('~', ('~', inner)), d)
+            yield ('~', (op2, ('~', (op1, a, (op1, b, c))), ('#', 7))) if False else ('~', ('~', ('~', inner)))
+
+
 def _with_complements(e, depth=0):
     yield e
     if depth < 1 and e[0] in ('*', ':'):
@@ -182,7 +194,8 @@ class _GetAst:
     assignment of senses to the surfaces and cells used."""
     scope = ('all expressions with <= 2 binary operators (thorough: 3) over 5 leaves (three signed surfaces, a signed '
              'facet, a cell complement), with #( ) wrapped around the whole expression or around either operand, in 5 '
-             'spacing styles; all 2^6 assignments')
+             'spacing styles, plus doubly and triply nested complements over three-operand intersections / unions; all '
+             'assignments of senses')
 
     def bounded(tier):
         n_max = 2 if tier == 'quick' else 3
@@ -196,6 +209,12 @@ class _GetAst:
                             continue
                         seen.add(txt)
                         yield {'geom': txt, 'tree': e2}
+        for e2 in _nested(tier):
+            for style in STYLES:
+                txt = _render(e2, style)
+                if txt not in seen:
+                    seen.add(txt)
+                    yield {'geom': txt, 'tree': e2}
 
     def call(geom, tree):
         from harness import shim
@@ -212,6 +231,8 @@ class _GetAst:
                 ok = False
                 break
         yield 'same-boolean-function', ok
+        # shape invariant the tree contracts rely on (inverse reads exactly two operands)
+        yield 'every-operator-node-is-binary', is_binary(result)
 
 
 EXPLANATION = {'C11': (
